@@ -65,8 +65,12 @@ def check(run):
     tail(R)
     C03.rsv1gate(R, RID='C06.rsv1')
     rsv1_in(R)
+    from . import C01 as _C01
+    _C01.accept(R, RID='C06.rsv1')      # no compressed frame a conforming peer may send (RSV1 on a first fragment) is refused
     fail(R)
     activate(R)
+    from . import C02 as _C02
+    _C02.parser_lifetime(R, RID='C06.activate')      # compression is switched on in the running parser, not in a new one
     from . import C01
     C01.alias(R, RID='C06.tail')     # inflate input / output never alias the reused receive buffer
 
